@@ -34,7 +34,7 @@ from .. import gen, impl, ser
 
 ID = "C07"
 LEVEL = "proof"
-PROPS_MODULE = "SymmModel.Props.C07All"
+PROPS_MODULE = "SymmModel.Props.C07All2"
 THEOREMS = [
     "SymmModel.C07.plan_certificate_sound",
     "SymmModel.C07.plan_certificate_size",
@@ -59,9 +59,26 @@ THEOREMS = [
     "SymmModel.C07.applyPlan_content",
     "SymmModel.C07.applyPlan_axes_count",
     "SymmModel.C07.reshape_axes_count",
-    "SymmModel.C07.reshape_self_identity"
+    "SymmModel.C07.reshape_self_identity",
+    "SymmModel.C07.planner_wf_of_trailing",
+    "SymmModel.C07.planner_wf",
+    "SymmModel.C07.planner_shape_exact",
+    "SymmModel.C07.planner_wf_unfused",
+    "SymmModel.C07.planner_size_mismatch_counterexample",
+    "SymmModel.C07.planner_zero_size_counterexample",
+    "SymmModel.C07.planner_trailing_target_counterexample",
+    "SymmModel.C07.planner_empty_target_excluded",
+    "SymmModel.C07.window_match_excluded",
+    "SymmModel.C07.sameAbs_normSq2",
+    "SymmModel.C07.sameAbs_perm_magnitudes",
+    "SymmModel.C07.fuseF_content",
+    "SymmModel.C07.unfuseF_content",
+    "SymmModel.C07.applyPlan_contentF",
+    "SymmModel.C07.reshape_contentF",
+    "SymmModel.C07.reshape_content_abelian",
+    "SymmModel.C07.dense_of_unfused"
 ]
-LEAN_FILES = ["SymmModel.Model.ReshapePlan", "SymmModel.Model.Reshape", "SymmModel.Driver.ReshapeH", "SymmModel.Proofs.C07", "SymmModel.Proofs.C07T4", "SymmModel.Proofs.C07T5_1", "SymmModel.Proofs.C07T5_2", "SymmModel.Proofs.C07T5_3", "SymmModel.Proofs.C07T5_4", "SymmModel.Proofs.C07T5_6", "SymmModel.Props.C07", "SymmModel.Props.C07b", "SymmModel.Props.C07All", "SymmModel.Proofs.ReshapeMore"]
+LEAN_FILES = ["SymmModel.Model.ReshapePlan", "SymmModel.Model.Reshape", "SymmModel.Driver.ReshapeH", "SymmModel.Proofs.C07", "SymmModel.Proofs.C07T4", "SymmModel.Proofs.C07T5_1", "SymmModel.Proofs.C07T5_2", "SymmModel.Proofs.C07T5_3", "SymmModel.Proofs.C07T5_4", "SymmModel.Proofs.C07T5_6", "SymmModel.Props.C07", "SymmModel.Props.C07b", "SymmModel.Props.C07All", "SymmModel.Proofs.ReshapeMore", "SymmModel.Proofs.Reshape3a", "SymmModel.Proofs.Reshape3b", "SymmModel.Proofs.Reshape3c", "SymmModel.Proofs.Reshape3d", "SymmModel.Proofs.Reshape3e", "SymmModel.Proofs.Reshape3f", "SymmModel.Proofs.Reshape3g", "SymmModel.Proofs.Reshape3h", "SymmModel.Proofs.Reshape3i", "SymmModel.Proofs.Reshape3j", "SymmModel.Props.C07c", "SymmModel.Props.C07All2"]
 RULE = (
     "planner: the whole stated domain on every run (exhaustive, both directions) plus a seeded "
     "random extension; arrays: random sparse abelian/fermionic arrays (<= 4 axes, block sizes "
@@ -81,7 +98,7 @@ ASSUMPTIONS = [
     "newshape entries that are still negative after find_full_reshape are outside the model (never generated)",
     "the kernel-checked planner table speaks about symbolic (dense-product) shapes; sparse arrays, whose fused sizes shrink, are covered by the per-call certificate check (monitor) and the array stream",
 ]
-PLANNED = ["content preservation for fermionic arrays (fuseF/unfuseF sign operations)", "unbounded planner theorem (the certificate Plan.wfB is a hypothesis outside the finite table)"]
+PLANNED = ["element-exact fermionic statement along a whole plan (each element at its reshaped address with the explicit fuse sign", "single steps and unfuseF_fuseF proved)", "exact fermionic round trip", "planner totality for every merge/drop target of unbounded shapes (finite table proved)", "array-level theorems for sparsely fused arrays without the certificate hypothesis"]
 TRUSTED_EXTRA = [
     "the Python enumeration of merge/drop targets equals the Lean enumeration `targets` (compared on every run for all 3 905 shapes)",
 ]
